@@ -69,6 +69,10 @@ claimed = {
    text="Decides a structural necessary condition for every call site that can yield an I/O-derived error (direct io calls and, transitively, module functions returning such errors): the error is not discarded, has a propagating use, and after `err != nil` no path rejoins normal flow without returning it except on an io.EOF/ErrUnexpectedEOF edge; discarded scanner errors are admitted only under the sticky-error rule, which is checked; bufio.Scanner loops are followed by Err(); the token loop ends normally only on io.EOF; fonts/CMaps are registered only by definefont/defineresource/endcmap, last. Does not run fault injection.",
    technique="static analysis: interprocedural I/O-error taint over go/ssa (fixpoint on return values), per-call-site flow rule with EOF-edge exemption, who-may-write rules for the registration sites, parsed font template",
    ref="DESIGN.md §5 C13"),
+ "C02": dict(
+   text="Decides the table clauses of the data operators from the system-dictionary registry: all 63 operators bound, data entries typed, the 28 error names; PLRM operand count in the first stack-depth guard; every error exit named after the class of its controlling condition (stack depth, type test, operand range, size limit, failed look-up, dictionary-stack depth, missing mark); accepted-operand regions of get/put/getinterval/putinterval/index/copy equivalent to the PLRM region by mutual Fourier–Motzkin entailment with overflow side conditions, byte range of string put, non-negativity of sizes/counts; overflow predicates of add/sub/mul/abs true exactly on non-representable results over all boundary operand pairs; net stack effect on every normal return; composite operands moved not copied; dictionary eq/ne by identity with a checked probe protocol. The computed values themselves (sums, equality normalisation, contents) are not decided.",
+   technique="static analysis: registry extraction from the type-checked AST, go/ssa dominance rules per operator, linear-arithmetic fact engine (Fourier–Motzkin) for operand regions and stack heights, abstract evaluation of comparison-only overflow predicates in wrapped 64-bit arithmetic, value-provenance tracing for sharing",
+   ref="DESIGN.md §5 C02"),
  "C03": dict(
    text="Decides structural necessary conditions of the control-flow clauses on the SSA form: loop operators compare the body's result with the exit signal, leave the loop and return nil, propagate other errors; exit/stop are intercepted nowhere else and Execute maps them to invalidexit/nil; body elements (nested call and tail jump) are dispatched with execute=false and looked-up values with true; dispatch happens only outside an open procedure body; load/where scan the dictionary stack top-down, first hit wins; bind resolves through the same lookup; if/ifelse run exactly the prescribed operand on opposite edges of the boolean test; per-iteration pushes of for/forall/loop/repeat, repeat's trip count, for's termination predicate (decision table) and control-variable update. Does not decide values or iteration counts of nested programs.",
    technique="static analysis: go/ssa def-use and dominance rules per registered operator, phi-edge inspection of the dispatch loop, decision-table extraction of comparison-only predicates",
